@@ -69,13 +69,19 @@ class GenericValue(Snapshot):
                 old_value.value = value
                 return
 
-            assert type(old_value) is type(value)
+            if type(old_value) is not type(value):
+                raise UsageError(
+                    "snapshot value should not change. Use Is(...) for dynamic snapshot parts."
+                )
 
             adapter = self.get_adapter(old_value)
             if adapter is not None and hasattr(adapter, "items"):
                 old_items = adapter.items(old_value, node)
                 new_items = adapter.items(value, node)
-                assert len(old_items) == len(new_items)
+                if len(old_items) != len(new_items):
+                    raise UsageError(
+                        "snapshot value should not change. Use Is(...) for dynamic snapshot parts."
+                    )
 
                 for old_item, new_item in zip(old_items, new_items):
                     re_eval(old_item.value, old_item.node, new_item.value)
